@@ -174,7 +174,7 @@ HOSTILE_URL = ['http://\uff41.b/', 'http://a.b:\uff18\uff10/', 'http://a:\xb2/',
                'HTTP://A', 'http://' + 'a' * 300 + '/', 'http://a..b/', 'http://xn--/', 'http://a/%zz', 'http://a/?\U0001f600',
                '\xe4://a/', 'http\uff1a//a/', 'http://a@b@c/', 'http://:80/', 'http://\u200b/']
 HOSTILE_LONG = ['x' * 70000, '\xe9' * 40000, MD5 * 2000, 'http://a/' + 'b' * 70000]
-HOSTILE_OTHER = [0, 1, -1, 2, 16384, 16385, 2 ** 31, 2 ** 63, 10 ** 30, -10 ** 30,
+HOSTILE_OTHER = [0, 1, -1, 2, 16384, 16385, 2 ** 31, 2 ** 63, 10 ** 30, -10 ** 30, 2 ** 53 + 1, 2 ** 1024, -2 ** 1024, 10 ** 4299,
                  b'\xff', b'\xc3', b'\xed\xa0\x80', b'a\xffb', MD5.encode()[:31] + b'\xff',
                  [], [b''], [b'a'], [b'\xff'], [1], [[]], [[b'http://a/']], [[b'\xff']], [[1]], [b'a', [b'b']], [{}],
                  [MD5.encode()], [b'\xef\xbc\x91'],
@@ -276,6 +276,83 @@ def field_matrix(full_product=False):
             for kind, full, base in (app if full_product else [app[(pi + vi) % len(app)]]):
                 out.append(dict(kind='field/' + path_label(path), layout=kind + ('-full' if full else '-min'),
                                 x=bstrict.ser(put(base, path, v))))
+    return out
+
+
+# ------------------------------------------------------------------------------ number ladder (round 3)
+# every numeric field validate() / the setters look at gets every magnitude class a conversion could
+# stumble over: machine-word borders, the 2^53 float-precision border, the float *range* border 2^1024
+# (float(n) / n / m / math.isfinite(n) raise OverflowError from there on), 10^308, and the decoder's
+# 4300-digit limit — in torrents that are otherwise valid, once with the numbers around it left as they
+# are (the count check fails after the number passed its own check) and once *fitted* (piece length a
+# multiple of 16384 chosen so that the piece count is right: the torrent validates and every later
+# check, dump(), infohash and magnet() are reached with the number in place).
+
+def _pos_ladder():
+    out = [0, 1, 2, 16383, 16384, 16385, 2 ** 31 - 1, 2 ** 31, 2 ** 31 + 1, 2 ** 32, 2 ** 53 - 1, 2 ** 53, 2 ** 53 + 1,
+           2 ** 63 - 1, 2 ** 63, 2 ** 63 + 1, 2 ** 64, 10 ** 308, 2 ** 1023, 2 ** 1024 - 1, 2 ** 1024, 2 ** 1024 + 1, 2 ** 1025,
+           10 ** 309, 10 ** 400, 2 ** 2048, 10 ** 4298, 10 ** 4299, 10 ** 4300 - 1, 10 ** 4300]
+    return out
+
+
+LADDER = _pos_ladder() + [-n for n in _pos_ladder() if n]
+PAIRS = [(2 ** 53 - 1, 1), (2 ** 53, 1), (2 ** 53, 2 ** 53), (2 ** 63 - 1, 1), (2 ** 63, 2 ** 63), (2 ** 1023, 2 ** 1023),
+         (2 ** 1024 - 1, 1), (2 ** 1024 - 1, 2 ** 1024 - 1), (2 ** 1024, 0), (0, 2 ** 1024), (1, 2 ** 1024), (10 ** 308, 10 ** 308),
+         (9 * 10 ** 307, 9 * 10 ** 307), (9 * 10 ** 4299, 9 * 10 ** 4299), (10 ** 4300 - 1, 1), (2 ** 1024, -1), (-2 ** 1024, 2 ** 1025),
+         (2 ** 1023, -2 ** 1023), (2 ** 1024, 2 ** 1024)]
+
+
+def _fit(total):
+    """smallest multiple of 16384 that holds `total` bytes in one piece"""
+    return K16 * max(1, -(-total // K16))
+
+
+def number_ladder():
+    out = []
+
+    def add(field, md, **kw):
+        out.append(dict(kind='number/' + field, x=bstrict.ser(md), **kw))
+
+    one = b'\x03' * 20
+    for n in LADDER:
+        # single-file length: as it is, and with a fitting piece length (one piece)
+        md = layout('single', True)
+        add('length', put(md, (b'info', b'length'), n))
+        md = put(put(md, (b'info', b'length'), n), (b'info', b'pieces'), one)
+        add('length-fitted', put(md, (b'info', b'piece length'), _fit(n)))
+        add('length-fitted', put(put(layout('single', False), (b'info', b'length'), n),
+                                 (b'info', b'piece length'), _fit(n) * 2))         # 2 pieces there: count is wrong by one
+        # multi-file: either file
+        for i in (0, 1):
+            md = layout('multi', bool(i))
+            other = md[b'info'][b'files'][1 - i][b'length']
+            add('files.length', put(md, (b'info', b'files', i, b'length'), n))
+            md = put(put(md, (b'info', b'files', i, b'length'), n), (b'info', b'pieces'), one)
+            add('files.length-fitted', put(md, (b'info', b'piece length'), _fit(n + other)))
+        # piece length: the number itself and the multiple of 16384 next to it, one piece
+        for pl in (n, K16 * n, K16 * (n // K16), K16 * (n // K16) + K16):
+            for kind in ('single', 'multi'):
+                md = put(layout(kind, kind == 'multi'), (b'info', b'pieces'), one)
+                add('piece-length', put(md, (b'info', b'piece length'), pl))
+        # piece length a huge multiple, length just below / at / above it
+        if n > K16:
+            pl = _fit(n)
+            for ln in (pl - 1, pl, pl + 1):
+                md = put(put(layout('single', False), (b'info', b'piece length'), pl), (b'info', b'length'), ln)
+                add('length-vs-piece-length', put(md, (b'info', b'pieces'), one))
+        for kind in ('single', 'multi'):
+            add('creation-date', put(layout(kind, True), (b'creation date',), n))
+            add('private', put(layout(kind, True), (b'info', b'private'), n))
+    for a, b in PAIRS:
+        for full in (True, False):
+            md = layout('multi', full)
+            md = put(put(md, (b'info', b'files', 0, b'length'), a), (b'info', b'files', 1, b'length'), b)
+            add('pair', md)
+            md = put(md, (b'info', b'pieces'), one)
+            add('pair-fitted', put(md, (b'info', b'piece length'), _fit(a + b)))
+            add('pair-fitted', put(md, (b'info', b'piece length'), _fit(a + b) + K16))
+            if a + b > K16:
+                add('pair-fitted', put(md, (b'info', b'piece length'), _fit(a + b) - K16))   # two pieces needed, one there
     return out
 
 
@@ -575,6 +652,146 @@ def magnet_sizes(thorough=False):
     for key in ('%78t', 'x%74', '%78%74', 'x%5Fa', '%78_a', 'd%6e', 't%72', 'xt%3D' + H40, 'x%00t', 'xt%00', '+xt', 'xt+'):
         out.append(dict(kind='magnet/escape-key', uri='magnet:?' + key + '=' + H40))
         out.append(dict(kind='magnet/escape-key', uri=base + '&' + key + '=http://a'))
+    return out
+
+
+# ------------------------------------------------------------------ repeated units (round 3)
+# one character class repeated: every white-space class str.strip() knows, the invisible characters it does not
+# know, escapes, separators, digits, letters of the hash alphabets, URL punctuation
+UNITS = {
+    'sp': ' ', 'tab': '\t', 'nl': '\n', 'cr': '\r', 'vt': '\x0b', 'ff': '\x0c', 'fs': '\x1c', 'us': '\x1f', 'nel': '\x85',
+    'nbsp': '\xa0', 'ogham': '\u1680', 'enquad': '\u2000', 'emsp': '\u2003', 'thin': '\u2009', 'hair': '\u200a', 'ls': '\u2028',
+    'ps': '\u2029', 'nnbsp': '\u202f', 'mmsp': '\u205f', 'ideo': '\u3000', 'bom': '\ufeff', 'zwsp': '\u200b', 'lrm': '\u200e',
+    'rlm': '\u200f', 'ws-mix': ' \t\n\r', 'crlf': '\r\n', 'sp-a': ' a',
+    'pct20': '%20', 'pct': '%', 'pctzz': '%zz', 'pcte9': '%e9', 'pctc3a9': '%c3%a9', 'pct00': '%00', 'pct2': '%2', 'pct25': '%25',
+    'plus': '+', 'amp': '&', 'semi': ';', 'eq': '=', 'amp-eq': '&=', 'zero': '0', 'nine': '9', 'a': 'a', 'f': 'f', 'A': 'A', 'z': 'z',
+    'seven': '7', 'slash': '/', 'colon': ':', 'dot': '.', 'at': '@', 'lbr': '[', 'rbr': ']', 'hash': '#', 'qm': '?', 'dash': '-',
+    'under': '_', 'comma': ',', 'auml': '\xe4', 'bslash': '\\', 'nul': '\x00', 'a-dot': 'a.', 'a-colon': 'a:',
+}
+WS_UNITS = ['sp', 'tab', 'nl', 'cr', 'vt', 'ff', 'fs', 'us', 'nel', 'nbsp', 'ogham', 'enquad', 'emsp', 'thin', 'hair', 'ls', 'ps',
+            'nnbsp', 'mmsp', 'ideo', 'bom', 'zwsp', 'lrm', 'rlm', 'ws-mix', 'crlf']
+MAGNET_POSITIONS = {
+    'start': lambda run, base: run + base,
+    'end': lambda run, base: base + run,
+    'bare': lambda run, base: 'a' + run + 'b',
+    'mid-scheme': lambda run, base: 'mag' + run + 'net:?xt=' + H40,
+    'after-scheme': lambda run, base: 'magnet:' + run + '?xt=' + H40,
+    'mid-xt': lambda run, base: 'magnet:?xt=' + H40[:20] + run + H40[20:],
+    'xt-run': lambda run, base: 'magnet:?xt=' + run + '!',
+    'xt-urn-run': lambda run, base: 'magnet:?xt=urn:btih:' + run + '!',
+    'mid-dn': lambda run, base: base + '&dn=a' + run + 'b',
+    'mid-xl': lambda run, base: base + '&xl=1' + run + 'x',
+    'mid-kt': lambda run, base: base + '&kt=a' + run + 'b',
+    'mid-tr-path': lambda run, base: base + '&tr=http://h/' + run + 'b',
+    'mid-tr-host': lambda run, base: base + '&tr=http://' + run + 'b/',
+    'mid-tr-port': lambda run, base: base + '&tr=http://h:' + run + 'b/',
+    'mid-ws': lambda run, base: base + '&ws=http://h/' + run + 'b',
+    'mid-xs': lambda run, base: base + '&xs=http://h/' + run + 'b',
+    'mid-key': lambda run, base: base + '&x_' + run + 'k=1',
+    'between': lambda run, base: base + '&dn=a' + run + '&xl=5',
+}
+
+
+def magnet_unit(pos, unit, n):
+    """magnet string of about n characters: `unit` repeated at `pos`"""
+    u = UNITS[unit]
+    return MAGNET_POSITIONS[pos](u * max(1, n // len(u)), 'magnet:?xt=urn:btih:' + H40)
+
+
+def magnet_padding():
+    """judged stream: short runs (1, 2, 40) of every unit at every position — what strip() removes, what it
+    leaves, what urlparse / parse_qs make of it"""
+    out = []
+    for pos in MAGNET_POSITIONS:
+        for unit in UNITS:
+            for k in (1, 40):
+                out.append(dict(kind='magnet/unit-' + pos, uri=magnet_unit(pos, unit, k * len(UNITS[unit]))))
+    return out
+
+
+BUNITS = {
+    'sp': b' ', 'tab': b'\t', 'nl': b'\n', 'nbsp': '\xa0'.encode(), 'emsp': '\u2003'.encode(), 'bom': '\ufeff'.encode(),
+    'auml': '\xe4'.encode(), 'pct': b'%', 'pct20': b'%20', 'slash': b'/', 'dot': b'.', 'bslash': b'\\', 'zero': b'0', 'nine': b'9',
+    'a': b'a', 'f': b'f', 'colon': b':', 'at': b'@', 'lbr': b'[', 'xff': b'\xff', 'nul': b'\x00', 'a-dot': b'a.', 'sp-a': b' a',
+    'amp': b'&', 'hash': b'#', 'qm': b'?',
+}
+# fields that hold text: key chain, the value the run is embedded in (prefix, suffix)
+READ_FIELDS = {
+    'name': ((b'info', b'name'), b'n', b'x'),
+    'md5sum': ((b'info', b'md5sum'), b'', b'!'),
+    'md5sum-hex': ((b'info', b'md5sum'), MD5.encode()[:31], b''),
+    'file-md5sum': ((b'info', b'files', 1, b'md5sum'), b'', b'!'),
+    'path': ((b'info', b'files', 0, b'path', 0), b'p', b'x'),
+    'source': ((b'info', b'source'), b's', b'x'),
+    'announce-path': ((b'announce',), b'http://h/', b'x'),
+    'announce-host': ((b'announce',), b'http://', b'x/'),
+    'announce-port': ((b'announce',), b'http://h:', b'x/'),
+    'announce-scheme': ((b'announce',), b'h', b'x://h/'),
+    'announce-list': ((b'announce-list', 0, 0), b'http://h/', b'x'),
+    'url-list': ((b'url-list', 0), b'http://h/', b'x'),
+    'url-list-str': ((b'url-list',), b'http://h/', b'x'),
+    'httpseeds': ((b'httpseeds', 0), b'http://h/', b'x'),
+    'comment': ((b'comment',), b'c', b'x'),
+    'created-by': ((b'created by',), b'c', b'x'),
+    'encoding': ((b'encoding',), b'U', b'x'),
+    'unknown': ((b'zzz',), b'', b'x'),
+    'info-unknown': ((b'info', b'zzz'), b'', b'x'),
+}
+READ_POSITIONS = ('start', 'mid', 'end')
+# shapes of the encoding itself: digits in length prefixes and integers, nesting, long keys
+READ_STRUCT = {
+    'prefix-nines': lambda n: b'd' + b'9' * n + b':ae',
+    'prefix-zeros': lambda n: b'd' + b'0' * n + b'1:ai1ee',
+    'prefix-zeros-only': lambda n: b'd' + b'0' * n,
+    'int-nines': lambda n: b'd1:ai' + b'9' * n + b'ee',
+    'int-zeros': lambda n: b'd1:ai' + b'0' * n + b'ee',
+    'int-minus': lambda n: b'd1:ai' + b'-' * n + b'ee',
+    'int-neg-nines': lambda n: b'd1:ai-' + b'9' * n + b'ee',
+    'int-4300-many': lambda n: b'd1:al' + (b'i' + b'9' * 4300 + b'e') * max(1, n // 4302) + b'e' + VALID_INFO + b'e',
+    'int-4301-late': lambda n: b'd1:al' + b'i7e' * (n // 3) + b'i' + b'9' * 4301 + b'ee' + VALID_INFO + b'e',
+    'colons': lambda n: b'd' + b':' * n,
+    'nest-l': lambda n: b'd1:a' + b'l' * (n // 2) + b'e' * (n // 2) + VALID_INFO + b'e',
+    'nest-d': lambda n: b'd1:a' + b'd1:a' * (n // 5) + b'i1e' + b'e' * (n // 5) + VALID_INFO + b'e',
+    'nest-l-unclosed': lambda n: b'd1:a' + b'l' * n,
+    'nest-d-unclosed': lambda n: b'd1:a' * (n // 4),
+    'nest-mixed-unclosed': lambda n: b'd1:a' + b'ld1:a' * (n // 5),
+    'nest-pieces': lambda n: b'd4:infod6:lengthi5e4:name1:a12:piece lengthi16384e6:pieces' + b'l' * (n // 2) + b'e' * (n // 2) + b'ee',
+    'nest-in-files': lambda n: (b'd4:infod5:files' + b'l' * (n // 2) + b'e' * (n // 2) +
+                                b'4:name1:a12:piece lengthi16384e6:pieces20:' + b'x' * 20 + b'ee'),
+    'closers': lambda n: b'd1:ale' + b'e' * n,
+    'key-long': lambda n: b'd' + VALID_INFO + str(n).encode() + b':' + b'k' * n + b'i1ee',
+    'key-long-xff': lambda n: b'd' + VALID_INFO + str(n).encode() + b':' + b'\xff' * n + b'i1ee',
+    'key-long-info': lambda n: b'd4:infod' + VALID_INFO[7:-1] + str(n).encode() + b':' + b'z' * n + b'i1eee',
+    'keys-long-many': lambda n: b'd' + VALID_INFO + b''.join(b'104:' + b'k' * 100 + b'%04d' % i + b'i1e'
+                                                             for i in range(min(9999, n // 110))) + b'e',
+    'pieces-long': lambda n: (b'd4:infod6:lengthi' + str(K16 * (n // 20)).encode() + b'e4:name1:a12:piece lengthi16384e6:pieces' +
+                              str(20 * (n // 20)).encode() + b':' + b'\x07' * (20 * (n // 20)) + b'ee'),
+    'files-many-paths': lambda n: (b'd4:infod5:filesld6:lengthi1e4:pathl' + b'9:pppppppp/' * (n // 11) +
+                                   b'eee4:name1:a12:piece lengthi16384e6:pieces20:' + b'x' * 20 + b'ee'),
+    'tiers-empty': lambda n: b'd13:announce-listl' + b'le' * (n // 4) + b'e7:comment' + str(n // 2).encode() + b':' + b'c' * (n // 2) + VALID_INFO + b'e',
+    'url-list-many': lambda n: b'd' + VALID_INFO + b'8:url-listl' + b'10:http://h/a' * (n // 13) + b'ee',
+    'url-list-bad-late': lambda n: b'd' + VALID_INFO + b'8:url-listl' + b'10:http://h/a' * (n // 13) + b'1:xee',
+}
+
+
+def read_unit(field, pos, unit, n):
+    """torrent of about n bytes: byte unit repeated inside the text of `field`"""
+    path, pre, suf = READ_FIELDS[field]
+    u = BUNITS[unit]
+    run = u * max(1, n // len(u))
+    v = {'start': run + pre + suf, 'mid': pre + run + suf, 'end': pre + suf + run}[pos]
+    kind = 'multi' if b'files' in path else 'single'
+    return bstrict.ser(put(layout(kind, True), path, v))
+
+
+def read_padding():
+    """judged stream: short runs of every byte unit in every text field at every position"""
+    out = []
+    for field in READ_FIELDS:
+        for pos in READ_POSITIONS:
+            for unit in BUNITS:
+                for k in (1, 33):
+                    out.append(dict(kind='field-unit/' + field, x=read_unit(field, pos, unit, k * len(BUNITS[unit]))))
     return out
 
 
